@@ -446,6 +446,9 @@ func (c *aeCtx) analyseLoop(root *ssa.Function, fn *ssa.Function, l *loop) *loop
 		return sum
 	}
 	problem := func(w *world, law, msg string) {
+		if !c.feasible(w) {
+			return
+		}
 		if sum.lawSig == nil {
 			sum.lawSig = map[string]*coreSet{}
 			sum.lawN = map[string]int{}
@@ -645,6 +648,9 @@ func (c *aeCtx) analyse(root *ssa.Function) *aeResult {
 		res.nfail = map[string]int{}
 		add := func(w *world, law, detail string) {
 			if c.scope != nil && !c.scope(w) {
+				return
+			}
+			if !c.feasible(w) {
 				return
 			}
 			res.nfail[law]++
